@@ -32,12 +32,19 @@ def run_one(m, build=True):
         if m["count"] == 1 and src.count(m["old"]) != 1:
             return m, "STALE", "pattern occurs %d times in %s" % (src.count(m["old"]), m["file"])
         src = src.replace(m["old"], m["new"], m["count"] if m["count"] > 0 else -1)
-        if "then" in m:
+        if "then" in m and len(m["then"]) == 2:
             o2, n2 = m["then"]
             if src.count(o2) != 1:
                 return m, "STALE", "second pattern not found exactly once"
             src = src.replace(o2, n2)
         open(path, "w").write(src)
+        if "then" in m and len(m["then"]) == 3:
+            f2, o2, n2 = m["then"]
+            p2 = os.path.join(repo, f2)
+            s2 = open(p2).read()
+            if s2.count(o2) != 1:
+                return m, "STALE", "second pattern not found exactly once in " + f2
+            open(p2, "w").write(s2.replace(o2, n2))
         if build:
             pk = "./" + os.path.dirname(m["file"]) if os.path.dirname(m["file"]) else "."
             r = subprocess.run(["go", "build", "./..."], cwd=repo, env=ENV, capture_output=True, text=True)
